@@ -465,17 +465,19 @@ func newWorker(id int, fx *fixtures) *worker {
 }
 
 type grid struct {
-	sk      []skeleton
-	fl      []filler
-	dc      []decoy
-	skSel   []int // enumerated indices per dimension (all of them in thorough, the Core subset in quick)
-	flSel   []int
-	dcSel   []int
-	eps     []string // endpoint variants of a POST statement; index 0 = /api/v1/query
-	verdict [][]uint8
-	skIdx   map[string]int
-	dcIdx   map[string]int
-	alt     map[int]int
+	sk        []skeleton
+	fl        []filler
+	dc        []decoy
+	skSel     []int // enumerated indices per dimension (all of them in thorough, the Core subset in quick)
+	flSel     []int
+	dcSel     []int
+	eps       []string // endpoint variants of a POST statement; index 0 = /api/v1/query
+	verdict   [][]uint8
+	skIdx     map[string]int
+	dcIdx     map[string]int
+	alt       map[int]int
+	lazy      *worker // evaluates candidates of the minimisation that phase 1 did not reach
+	lazyEvals int
 }
 
 func (g *grid) at(s, f, d, h int) int { return ((s*len(g.fl)+f)*len(g.dc)+d)*len(headers) + h }
@@ -504,6 +506,14 @@ func (g *grid) v(x elem) uint8 { return g.verdict[x.e][g.at(x.s, x.f, x.d, x.h)]
 func (g *grid) reduce(x elem) elem {
 	k := primary(g.v(x))
 	fails := func(y elem) bool {
+		if g.v(y) == vNA && g.lazy != nil {
+			// not evaluated in phase 1 (time cap, or the quick tier's estimate sub-product): evaluate now,
+			// so that the minimal form never depends on how far phase 1 got
+			if r, ok := g.request(y.e, y.s, y.f, y.d, y.h); ok {
+				g.verdict[y.e][g.at(y.s, y.f, y.d, y.h)] = g.lazy.judge(r).V
+				g.lazyEvals++
+			}
+		}
 		p := primary(g.v(y))
 		return p != 0 && p <= k
 	}
@@ -563,6 +573,14 @@ func (g *grid) reduce(x elem) elem {
 			}
 		}
 		if b := g.fl[x.f].Base; b >= 0 {
+			y = x
+			y.f = b
+			if try(y) {
+				changed = true
+				continue
+			}
+		}
+		if b := g.fl[x.f].Base2; b >= 0 {
 			y = x
 			y.f = b
 			if try(y) {
@@ -711,6 +729,9 @@ func main() {
 				if b := g.fl[i].Base; b >= 0 && !g.fl[b].Core {
 					g.fl[b].Core, changed = true, true
 				}
+				if b := g.fl[i].Base2; b >= 0 && !g.fl[b].Core {
+					g.fl[b].Core, changed = true, true
+				}
 				if a, ok := g.alt[i]; ok && !g.fl[a].Core {
 					g.fl[a].Core, changed = true, true
 				}
@@ -797,6 +818,19 @@ func main() {
 			units = units[:n]
 		}
 	}
+	loadTable := os.Getenv("C14_TABLE_LOAD") // development only: re-classify a saved verdict table without phase 1
+	if loadTable != "" {
+		b, err := os.ReadFile(loadTable)
+		must(err, "C14_TABLE_LOAD")
+		if len(b) != len(g.eps)*size {
+			must(fmt.Errorf("table has %d bytes, grid needs %d", len(b), len(g.eps)*size), "C14_TABLE_LOAD")
+		}
+		for e := range g.verdict {
+			copy(g.verdict[e], b[e*size:(e+1)*size])
+		}
+		units = nil
+		run.Replay = loadTable // a re-classification is not evidence: Finish must not write evidence/C14.json
+	}
 	var next int64
 	var evaluations, statements, executed, timedOut int64
 	var mu sync.Mutex
@@ -868,6 +902,14 @@ func main() {
 	}
 	wg.Wait()
 
+	if p := os.Getenv("C14_TABLE_SAVE"); p != "" && loadTable == "" {
+		var b []byte
+		for e := range g.verdict {
+			b = append(b, g.verdict[e]...)
+		}
+		must(os.WriteFile(p, b, 0o644), "C14_TABLE_SAVE")
+	}
+
 	// ---- phase 2: classes -----------------------------------------------------------------------------------
 	// every violating case is minimised; cases are one class when their minimal forms differ from the
 	// canonical statement in the same dimensions (bypass). The class is represented by its first minimal
@@ -898,6 +940,7 @@ func main() {
 	}
 	classes := map[string]*class{}
 	rawViol := 0
+	g.lazy = workers[0]
 	for e := range g.eps {
 		for _, s := range g.skSel {
 			for _, f := range g.flSel {
@@ -990,6 +1033,7 @@ func main() {
 	run.Coverage["dimensions"] = map[string]int{"skeletons": len(g.skSel), "fillers": len(g.flSel), "decoys": len(g.dcSel), "headers": len(headers), "endpoints": len(g.eps), "listing_requests": int(nList), "catalog_table_functions": len(catalog)}
 	run.Coverage["status_histogram_A/B/N"] = statusHist
 	run.Coverage["raw_violations"] = rawViol
+	run.Coverage["minimisation_extra_evaluations"] = g.lazyEvals
 	run.Coverage["verdict_table_fnv64"] = fmt.Sprintf("%016x", hsum.Sum64())
 	run.Coverage["exhaustive"] = timedOut == 0
 	run.Coverage["workers"] = nw
